@@ -5,8 +5,11 @@ pub fn lookup_format(name: &str) -> Option<&str> {
             r"[0-9]{4}-(?:",
             r"(?:0[13578]|1[02])-(?:0[1-9]|[12][0-9]|3[01])|", // 31-day months
             r"(?:0[469]|11)-(?:0[1-9]|[12][0-9]|30)|",         // 30-day months
-            r"(?:02)-(?:0[1-9]|1[0-9]|2[0-9])",                // February up to 29 days
-            r"))",
+            r"(?:02)-(?:0[1-9]|1[0-9]|2[0-8])",                // February up to 28 days
+            r")|",
+            // 29 February only in leap years
+            r"(?:[0-9]{2}(?:0[48]|[2468][048]|[13579][26])|(?:[02468][048]|[13579][26])00)-02-29",
+            r")",
             r"[tT](?P<time>",
             r"(?:[01][0-9]|2[0-3]):[0-5][0-9]:", // Hours, Minutes
             r"(?:[0-5][0-9]|60)",                // Seconds (including leap second 60)
@@ -22,7 +25,9 @@ pub fn lookup_format(name: &str) -> Option<&str> {
         "date" => concat!(
             r"(?:[0-9]{4}-(?:0[13578]|1[02])-(?:0[1-9]|[12][0-9]|3[01]))|", // Months with 31 days
             r"(?:[0-9]{4}-(?:0[469]|11)-(?:0[1-9]|[12][0-9]|30))|",         // Months with 30 days
-            r"(?:[0-9]{4}-02-(?:0[1-9]|1[0-9]|2[0-9]))", // February with up to 29 days
+            r"(?:[0-9]{4}-02-(?:0[1-9]|1[0-9]|2[0-8]))|", // February with up to 28 days
+            // 29 February only in leap years
+            r"(?:(?:[0-9]{2}(?:0[48]|[2468][048]|[13579][26])|(?:[02468][048]|[13579][26])00)-02-29)",
         ),
         "duration" => {
             r"P(?:(?P<dur_date>(?:(?P<dur_year>[0-9]+Y(?:[0-9]+M(?:[0-9]+D)?)?)|(?P<dur_month>[0-9]+M(?:[0-9]+D)?)|(?P<dur_day>[0-9]+D))(?:T(?:(?P<dur_hour>[0-9]+H(?:[0-9]+M(?:[0-9]+S)?)?)|(?P<dur_minute>[0-9]+M(?:[0-9]+S)?)|(?P<dur_second>[0-9]+S)))?)|(?P<dur_time>T(?:(?P<dur_hour2>[0-9]+H(?:[0-9]+M(?:[0-9]+S)?)?)|(?P<dur_minute2>[0-9]+M(?:[0-9]+S)?)|(?P<dur_second2>[0-9]+S)))|(?P<dur_week>[0-9]+W))"
